@@ -222,10 +222,11 @@ LATTICE_CFGS = {
     # a 4 x 4 box that is periodic along its first axis only (walls along the second)
     "ov_2dm": ("MC_Tracking_ov_2dm.cfg", 2, 4, [True, False], "overlap", None),
     "di_2dm": ("MC_Tracking_di_2dm.cfg", 2, 4, [True, False], "distance", 2),
+    "di_qp": ("MC_Tracking_di_qp.cfg", 1, 5, True, "distance", None),
     "ov_q2dm": ("MC_Tracking_ov_q2dm.cfg", 2, 3, [True, False], "overlap", None),
     "di_q2dm": ("MC_Tracking_di_q2dm.cfg", 2, 3, [True, False], "distance", 2),
 }
-QUICK = ["ov_q", "di_q", "di_q2", "ov_q2", "di_q3", "di_q4", "ov_q2dm", "di_q2dm"]
+QUICK = ["ov_q", "di_q", "di_q2", "ov_q2", "di_q3", "di_q4", "ov_q2dm", "di_q2dm", "di_qp"]
 THOROUGH = QUICK + ["ov_t", "ov_t2", "di_t", "di_t1", "di_t0", "di_tn", "di_t4", "ov_2d", "di_2d", "ov_2dm", "di_2dm"]
 
 
@@ -249,6 +250,47 @@ def classify(out, pid, case, verdict_judge, res):
         out.violation({"case": case, "failed_clauses": failed}, signature=sig)
         return True
     return False
+
+
+def identical_droplets(out, pid, seed, n):
+    """frames that hold EXACT duplicates (droplets equal in every parameter, e.g. two vanished droplets recorded at one
+    place): every droplet of every frame still appears in exactly one track -- judged by counting"""
+    from collections import Counter
+
+    from pde import UnitGrid
+
+    from droplets import DropletTrackList, Emulsion, EmulsionTimeCourse, SphericalDroplet
+
+    rng = random.Random(seed * 31 + 7)
+    for k in range(n):
+        dim = rng.choice([1, 2])
+        L = 8
+        grid = UnitGrid([L] * dim, periodic=True) if rng.random() < 0.5 else None
+        frames = []
+        for f in range(rng.randint(2, 4)):
+            pts = [([float(rng.randrange(L)) for _ in range(dim)], rng.choice([0.0, 0.0, 0.5, 1.0])) for _ in range(rng.randint(1, 3))]
+            fr = []
+            for p_, r_ in pts:
+                fr += [(p_, r_)] * rng.choice([1, 2, 2, 3])
+            rng.shuffle(fr)
+            frames.append(fr)
+        times = [0.5 * i for i in range(len(frames))]
+        for method, kw in (("overlap", {}), ("distance", {}), ("distance", {"max_dist": 1.0})):
+            etc = EmulsionTimeCourse([Emulsion([SphericalDroplet(np.array(p_), r_) for p_, r_ in fr]) for fr in frames], times=times)
+            fails = []
+            try:
+                tl = DropletTrackList.from_emulsion_time_course(etc, method=method, grid=grid, **kw)
+                got = Counter((float(t), tuple(map(float, d.position)), float(d.radius)) for tr in tl for t, d in zip(tr.times, tr.droplets))
+                want = Counter((float(t), tuple(map(float, p_)), float(r_)) for t, fr in zip(times, frames) for p_, r_ in fr)
+                if got != want:
+                    lost = sum((want - got).values())
+                    extra = sum((got - want).values())
+                    fails.append(f"{lost} droplets of the time course are in no track, {extra} entries of the tracks are not in the time course")
+            except Exception as exc:  # noqa: BLE001
+                fails.append(f"raised {type(exc).__name__}: {exc}")
+            out.evaluations += 1
+            if fails and pid == "C06":
+                out.violation({"identical_droplets": {"frames": frames, "method": method, "options": kw, "grid": grid is not None}, "fails": fails})
 
 
 def run(out: core.Outcome, pid: str) -> None:
@@ -308,6 +350,7 @@ def run(out: core.Outcome, pid: str) -> None:
                 deviations += 1
     # ---- code -> spec: random float time courses
     n_random = 600 if tier == "quick" else 12000
+    identical_droplets(out, pid, out.seed, 60 if tier == "quick" else 600)
     rnd_bad, n_valid, n_skipped = random_traces(out, pid, n_random, out.seed)
     deviations += rnd_bad
     out.traces += n_valid
@@ -360,6 +403,7 @@ def _gen_course(rng: random.Random):
         max_dist = rng.choice([None, 2.5, 1.0]) if method == "distance" else None
         return dim, L, periodic, frames, method, max_dist
     nfr = rng.randint(1, 9)
+    outside = bool(periodic) and rng.random() < 0.4
     ndrop = rng.randint(0, 6)
     crowd = rng.random() < 0.3
     rmax = (3.0 if crowd else 1.2) if dim > 1 else (2.0 if crowd else 0.8)
@@ -378,6 +422,9 @@ def _gen_course(rng: random.Random):
             q = [x + rng.uniform(-step, step) for x in p]
             if periodic:
                 q = [x % L if (periodic is True or periodic[a]) else x for a, x in enumerate(q)]
+                if outside and rng.random() < 0.5:
+                    # the same place, written with a centre outside the fundamental cell (a droplet that drifted out)
+                    q = [x + rng.choice([-1, 1, 2]) * L if (periodic is True or periodic[a]) else x for a, x in enumerate(q)]
             rr = max(0.05, r * rng.uniform(0.9, 1.1)) if step else r
             new.append((q, rr))
             if u > 0.95:  # split
